@@ -149,6 +149,51 @@ def run_entry_points(job):
             "violations": viols, "outcomes": [], "sample": {"entry_points": [c[0] for c in calls]}}
 
 
+def run_faultmon(job):
+    """lock ownership on the error paths: every engine API call failed once (temporary / disconnected / out of space)"""
+    from . import c10
+    install_monitor()
+    drv = c10.DRIVER
+    w = drv.make_world(job)
+    try:
+        hist = w.prompt_run()
+        N = w.api_count
+    except NoQuiescence:
+        return {"states": 1, "transitions": 1, "evaluations": 0, "violations": [], "outcomes": [], "capped": False}
+    finally:
+        w.close()
+    found = {}
+    n = 0
+    for k in range(1, N + 1):
+        for kind in ("temporary", "disconnected", "nospace"):
+            w = drv.make_world(job)
+            log = set()
+            try:
+                w.plan = [(k, kind, "before")]
+                SINK["log"] = log
+                for a in hist:
+                    if a in w.actions():
+                        w.act(a)
+                try:
+                    w.settle(limit=80)
+                except NoQuiescence:
+                    pass
+                n += 1
+            finally:
+                SINK["log"] = None
+                w.close()
+            for (mut, site) in log:
+                found.setdefault("%s<-%s" % (mut, site), (k, kind))
+    viols = []
+    for sig, (k, kind) in found.items():
+        v = viol("unlocked-mutation-on-error-path", sig, {"fault_at_call": k, "kind": kind, "base_hist": hist})
+        v["hist"] = hist + ["FAULT(%s@%d)" % (kind, k)]
+        viols.append(v)
+    return {"states": n * len(hist), "transitions": n * len(hist), "evaluations": n, "traces": n, "nontrivial": n,
+            "terminals": n, "capped": False, "violations": viols, "outcomes": [],
+            "sample": {"faultmon": job_id(job), "base_hist": hist}}
+
+
 # ------------------------------------------------------------------------------------------------ (b) threaded runs
 SCEN = {
     "mkdir+create": ([["mkdir", "d2"]], [["create", "b", "R1"]]),
@@ -234,6 +279,8 @@ def run_job(job):
     k = job.get("kind")
     if k == "entry":
         return run_entry_points(job)
+    if k == "faultmon":
+        return run_faultmon(job)
     if k == "threads":
         name, bound = job["scenario"], job["bound"]
         t0 = time.time()
@@ -280,6 +327,13 @@ def main(tier):
     rep.add_results(report.pmap(__name__, monitor_jobs(tier), progress=500), part="lock-monitor-engine")
     ep = [{"kind": "entry", "cfg": cfg, "smart": sm} for cfg in ("oo", "po") for sm in (False, True)]
     rep.add_results(report.pmap(__name__, ep), part="lock-monitor-entry-points")
+    fm = []
+    for cfg in ("oo", "po"):
+        for sc in ([[["create", "c"]], []], [[], [["create", "c"]]], [[["write", "a"]], []], [[], [["rename", "a", "c"]]],
+                   [[["mkdir", "e"], ["create", "e/x"]], []], [[["delete", "a"]], [["write", "d/b"]]]):
+            fm.append({"kind": "faultmon", "prop": PROP, "cfg": cfg, "order": "asc", "base": "B1", "scripts": A.stamp(sc),
+                       "opts": {}})
+    rep.add_results(report.pmap(__name__, fm), part="lock-monitor-error-paths")
     tj = thread_jobs(tier)
     rs = report.pmap(__name__, tj, progress=200)
     for r in rs:
